@@ -44,6 +44,38 @@ type Parser struct {
 	mode             mode
 	indentedSection  bool
 	incompleteIndent bool
+	nesting          int  // how deep the expression, type or pattern being parsed is nested
+	nestingExceeded  bool // the nesting limit has been reported, the rest of the input is not worth reporting on
+}
+
+// The parser is recursive, every level of nesting takes up stack space.
+// Input that nests deeper than this is rejected instead of overflowing the stack.
+const maxNesting = 1000
+
+// Called on entry to a production through which nested constructs recurse.
+// Reports an error and returns false when the limit is exceeded.
+func (p *Parser) enterNesting() bool {
+	p.nesting++
+	if p.nesting <= maxNesting {
+		return true
+	}
+
+	if !p.nestingExceeded {
+		p.errorMessage("the code is nested too deeply")
+		p.nestingExceeded = true
+	}
+	return false
+}
+
+func (p *Parser) leaveNesting() {
+	p.nesting--
+}
+
+// Consumes a token and produces a placeholder for a construct that is nested too deeply.
+func (p *Parser) nestedTooDeeply() *ast.InvalidNode {
+	tok := p.advance()
+	p.mode = panicMode
+	return ast.NewInvalidNode(tok.Location(), tok)
 }
 
 // Instantiate a new parser.
@@ -146,7 +178,7 @@ func (p *Parser) errorMessage(message string) {
 
 // Same as [errorMessage] but let's you pass a Location.
 func (p *Parser) errorMessageLocation(message string, loc *position.Location) {
-	if p.mode == panicMode {
+	if p.mode == panicMode || p.nestingExceeded {
 		return
 	}
 
@@ -780,6 +812,11 @@ func (p *Parser) expressionWithModifier() ast.ExpressionNode {
 
 // expressionWithoutModifier = assignmentExpression
 func (p *Parser) expressionWithoutModifier() ast.ExpressionNode {
+	defer p.leaveNesting()
+	if !p.enterNesting() {
+		return p.nestedTooDeeply()
+	}
+
 	asgmt := p.assignmentExpression()
 	if p.mode == panicMode {
 		p.synchronise()
@@ -4891,6 +4928,11 @@ func (p *Parser) constantDeclaration(allowed bool) ast.ExpressionNode {
 
 // typeAnnotation = "void" | "never" | "any" | unionType
 func (p *Parser) typeAnnotation() ast.TypeNode {
+	defer p.leaveNesting()
+	if !p.enterNesting() {
+		return p.nestedTooDeeply()
+	}
+
 	switch p.lookahead.Type {
 	case token.VOID:
 		tok := p.advance()
@@ -6534,6 +6576,11 @@ func (p *Parser) listElementPattern() ast.PatternNode {
 
 // pattern = asPattern
 func (p *Parser) pattern() ast.PatternNode {
+	defer p.leaveNesting()
+	if !p.enterNesting() {
+		return p.nestedTooDeeply()
+	}
+
 	return p.asPattern()
 }
 
